@@ -199,3 +199,84 @@ def distribution(inputs, impl):
         for f in features(i):
             feats[f] += 1
     return {"outcomes": dict(cls), "constructs": dict(feats)}
+
+
+# ---- model A2 (bytecode level): second correspondence stream on the SAME inputs (area "nsbytecode")
+
+TRUSTED_A2 = [
+    "extract/opcodes: go/ast reader of the two iota const blocks (fails on anything but a plain iota sequence)",
+    "harness rendering of program.Program (hex of Instructions, resources with machine.Type tags, sorted NeededBalances, Sources)",
+    "Lean VM model over-approximates panics on a nil Monetary.Amount (any monetary pop of it panics); big.Int.Uint64 modelled as |n| mod 2^64",
+]
+
+OPNAMES = ["?", "APUSH", "BUMP", "DELETE", "IADD", "ISUB", "PRINT", "FAIL", "ASSET", "MONETARY_NEW", "MONETARY_ADD", "MONETARY_SUB", "MAKE_ALLOTMENT",
+           "TAKE_ALL", "TAKE_ALWAYS", "TAKE", "TAKE_MAX", "FUNDING_ASSEMBLE", "FUNDING_SUM", "FUNDING_REVERSE", "REPAY", "ALLOC", "SEND", "TX_META",
+           "ACCOUNT_META", "SAVE"]
+
+
+def regen_opcodes(ctx):
+    """lean/Generated/Opcodes.lean from the sources of this run (before L1: Props.C08 imports it)"""
+    from vlib import regen
+    err = None
+    for name, f in regen.GENERATORS:
+        if name == "opcodes":
+            err = f()
+    if err:
+        ctx.l1_broken.append("extract/opcodes could not read the sources: " + err)
+    p = os.path.join(BUILD, "opcodes.json")
+    if os.path.exists(p):
+        s = json.load(open(p))
+        ctx.cov["regenerated"] = {"opcodes": len(s["opcodes"]), "types": len(s["types"])}
+    return err
+
+
+def run_bytecode(ctx, inputs, timeout=3000):
+    """real compiler + VM (printing the compiled program) vs Lean Compile.compile/encode + VM.run, on `inputs`"""
+    inp = ctx.path("nsbytecode.in.jsonl")
+    write_jsonl(inp, inputs)
+    implf, modelf = ctx.path("nsbytecode.impl.jsonl"), ctx.path("nsbytecode.model.jsonl")
+    p = run_harness(["nsbytecode", "exec", "-in", inp, "-out", implf], timeout=timeout)
+    if p.returncode != 0:
+        ctx.l2_broken.append({"stream": "nsbytecode-exec", "detail": (p.stdout + p.stderr)[-2000:]})
+        return None
+    p = run_driver("nsbytecode", inp, modelf, timeout=timeout)
+    if p.returncode != 0:
+        ctx.l2_broken.append({"stream": "nsbytecode-driver", "detail": (p.stdout + p.stderr)[-2000:]})
+        return None
+    impl = {r["id"]: r["out"] for r in read_jsonl(implf)}
+    model = {r["id"]: r["out"] for r in read_jsonl(modelf)}
+    return impl, model
+
+
+def proj_run(o):
+    r = o.get("run")
+    if r is None:
+        return {"run": None}
+    if "panic" in r:
+        return {"run": {"panic": True}}
+    return {"run": strip(r)}
+
+
+def compare_bytecode(ctx, inputs, impl, model):
+    """(i) bytecode equality  (ii) VM model vs real VM; plus coverage of the instruction set"""
+    compare(ctx, "nsbytecode:bytecode-equality", inputs, impl, model,
+            proj_impl=lambda i, o: {"compile": o.get("compile")}, proj_model=lambda i, o: {"compile": o.get("compile")})
+    compare(ctx, "nsbytecode:vm-model-vs-real-vm", inputs, impl, model,
+            proj_impl=lambda i, o: proj_run(o), proj_model=lambda i, o: proj_run(o))
+    ops, progs, compiled, longest = collections.Counter(), set(), 0, 0
+    for inp in inputs:
+        c = impl.get(inp["id"], {}).get("compile")
+        if not isinstance(c, dict):
+            continue
+        compiled += 1
+        progs.add(c["code"])
+        b = bytes.fromhex(c["code"])
+        i, n = 0, 0
+        while i < len(b):
+            ops[OPNAMES[b[i]] if b[i] < len(OPNAMES) else "?"] += 1
+            i += 3 if b[i] == 1 else 1
+            n += 1
+        longest = max(longest, n)
+    ctx.cov["bytecode"] = {"programs": len(inputs), "compiled": compiled, "distinct_instruction_strings": len(progs),
+                           "longest_program_instrs": longest, "opcodes_emitted": dict(ops),
+                           "opcodes_never_emitted": [o for o in OPNAMES[1:] if o not in ops]}
